@@ -158,7 +158,8 @@ Definition attrs_ok (T : attr_tables) (sc : scope) (l : list attr) : Prop :=
   end.
 
 (* ---------- the IR subset ---------- *)
-Inductive tref := RPre (p : prelude) | REnum (i : nat) | RStruct (i : nat).
+(* RExt: a user-defined `external` type (the prelude's externals are RPre) *)
+Inductive tref := RPre (p : prelude) | REnum (i : nat) | RStruct (i : nat) | RExt (i : nat).
 Inductive alen := LConst (n : Z) | LDynamic | LAuto.
 (* t_dims: array dimensions in source order (innermost first, outermost last) *)
 Record ftype := mk_ftype { t_ref : tref; t_bits : option Z; t_dims : list alen }.
@@ -195,6 +196,16 @@ Record struct_def := mk_struct {
   s_params : list (tref * option Z)   (* runtime parameters: type and explicit :N *)
 }.
 
+(* a user-defined `external`: what its attributes say, as attribute_checker / constraints read them
+   (ir_util.get_integer_attribute / get_attribute of the unqualified, non-default attribute) *)
+Record ext_def := mk_extdef {
+  xd_name : string;
+  xd_unit : option Z;             (* [addressable_unit_size] *)
+  xd_fixed : option Z;            (* [fixed_size_in_bits] *)
+  xd_req : option expr;           (* [static_requirements]: (EVar 0) = $static_size_in_bits, (EBVar 0) = $is_statically_sized *)
+  xd_attrs : list attr
+}.
+
 (* Attributes qualified with a back end ([(cpp) ...], [(xyz) ...]) are not front-end attributes:
    they never appear in the attr lists above (they cannot change byte order, enum width/sign or
    fixed size); the front end only requires their qualifier to be declared. *)
@@ -203,7 +214,8 @@ Record module := mk_module {
   m_enums : list enum_def;
   m_structs : list struct_def;
   m_expected_back_ends : list string;   (* [expected_back_ends], default "cpp" *)
-  m_used_back_ends : list string        (* qualifiers occurring on attributes anywhere in the module *)
+  m_used_back_ends : list string;       (* qualifiers occurring on attributes anywhere in the module *)
+  m_externals : list ext_def            (* user-defined externals of every module of the IR *)
 }.
 
 Record tables := mk_tables {
@@ -231,6 +243,16 @@ Definition struct_fixed_size (s : struct_def) : option Z :=
 
 Definition nth_struct (M : module) (i : nat) : option struct_def := nth_error (m_structs M) i.
 Definition nth_enum (M : module) (i : nat) : option enum_def := nth_error (m_enums M) i.
+Definition nth_ext (M : module) (i : nat) : option ext_def := nth_error (m_externals M) i.
+
+(* attribute_checker._add_addressable_unit_to_external: BIT for 1, BYTE for 8, otherwise the
+   TypeDefinition keeps AddressableUnit.NONE (= 0) *)
+Definition ext_unit (x : ext_def) : Z :=
+  match xd_unit x with
+  | Some 1 => 1
+  | Some 8 => 8
+  | _ => 0
+  end.
 
 (* the [fixed_size_in_bits] attribute of the referenced type definition after normalisation *)
 Definition type_fixed_attr (M : module) (r : tref) : option Z :=
@@ -238,11 +260,13 @@ Definition type_fixed_attr (M : module) (r : tref) : option Z :=
   | RPre p => prelude_fixed p
   | REnum _ => None
   | RStruct i => match nth_struct M i with Some s => struct_fixed_size s | None => None end
+  | RExt i => match nth_ext M i with Some x => xd_fixed x | None => None end
   end.
 
 Definition unit_of_ref (M : module) (r : tref) : Z :=
   match r with
   | RStruct i => match nth_struct M i with Some s => s_unit s | None => 8 end
+  | RExt i => match nth_ext M i with Some x => ext_unit x | None => 1 end
   | _ => 1
   end.
 
@@ -310,6 +334,12 @@ Definition phys_req (T : tables) (M : module) (r : tref) (size : option Z) : boo
       | _, _ => false
       end
   | RStruct _ => true
+  | RExt i =>
+      (* `requires_attr and not constant_value(...)`: no [static_requirements], no requirement *)
+      match nth_ext M i with
+      | Some x => match xd_req x with Some e => req_holds e size | None => true end
+      | None => true
+      end
   end.
 
 (* _check_type_requirements_for_field on the innermost atomic type of f *)
@@ -386,7 +416,8 @@ Definition check_names (T : tables) (M : module) : bool :=
   forallb (fun e => negb (reserved T (e_name e))
                     && forallb (fun nv => negb (reserved T (fst nv))) (e_values e)) (m_enums M)
   && forallb (fun s => negb (reserved T (s_name s))
-                       && forallb (fun f => negb (reserved T (f_name f))) (s_fields s)) (m_structs M).
+                       && forallb (fun f => negb (reserved T (f_name f))) (s_fields s)) (m_structs M)
+  && forallb (fun x => negb (reserved T (xd_name x))) (m_externals M).
 
 Definition struct_scope (s : struct_def) : scope := if s_unit s =? 1 then ScBits else ScStruct.
 Definition field_scope (f : field) : scope := if f_virtual f then ScVirtField else ScPhysField.
@@ -397,7 +428,8 @@ Definition check_all_attrs (T : tables) (M : module) : bool :=
                        && forallb (check_attrs (t_attr T) ScEnumValue) (e_value_attrs e)) (m_enums M)
   && forallb (fun s => check_attrs (t_attr T) (struct_scope s) (s_attrs s)
                        && forallb (fun f => check_attrs (t_attr T) (field_scope f) (f_attrs f)) (s_fields s))
-             (m_structs M).
+             (m_structs M)
+  && forallb (fun x => check_attrs (t_attr T) ScExternal (xd_attrs x)) (m_externals M).
 
 (* _check_type_requirements_for_parameter_type (integer parameters) *)
 Definition check_param (T : tables) (M : module) (p : tref * option Z) : bool :=
@@ -410,8 +442,16 @@ Definition check_param (T : tables) (M : module) (p : tref * option Z) : bool :=
 Definition check_back_ends (M : module) : bool :=
   forallb (fun b => existsb (String.eqb b) (m_expected_back_ends M)) (m_used_back_ends M).
 
+(* _verify_addressable_unit_attribute_on_external *)
+Definition check_external (x : ext_def) : bool :=
+  match xd_unit x with
+  | Some u => (u =? 1) || (u =? 8)
+  | None => false
+  end.
+
 Definition check_layout (T : tables) (M : module) : bool :=
   check_all_attrs T M
+  && forallb check_external (m_externals M)
   && check_back_ends M
   && forallb check_enum (m_enums M)
   && forallb (fun s => check_struct_size s && forallb (check_field T M s) (s_fields s)
@@ -454,6 +494,10 @@ Definition real_width (M : module) (r : tref) (size : option Z) : Prop :=
   | RPre p => exists w, size = Some w /\ width_ok p w
   | REnum i => exists e w, nth_enum M i = Some e /\ size = Some w /\ 1 <= w <= enum_maxbits e
   | RStruct _ => True
+  | RExt i =>
+      (* the external's [static_requirements], with $static_size_in_bits / $is_statically_sized bound
+         to the size the field gives the type, is the constant true (ir_util.constant_value; C05) *)
+      forall x e, nth_ext M i = Some x -> xd_req x = Some e -> req_holds e size = true
   end.
 
 Definition fits_field (s : struct_def) (f : field) (a : Z) (anon : bool) : Prop :=
@@ -512,14 +556,16 @@ Definition real_names (T : tables) (M : module) : Prop :=
   (forall e, In e (m_enums M) -> ~ In (e_name e) (t_reserved T) /\
                                  forall n v, In (n, v) (e_values e) -> ~ In n (t_reserved T))
   /\ (forall s, In s (m_structs M) -> ~ In (s_name s) (t_reserved T) /\
-                                     forall f, In f (s_fields s) -> ~ In (f_name f) (t_reserved T)).
+                                     forall f, In f (s_fields s) -> ~ In (f_name f) (t_reserved T))
+  /\ (forall x, In x (m_externals M) -> ~ In (xd_name x) (t_reserved T)).
 
 Definition real_attrs (T : tables) (M : module) : Prop :=
   attrs_ok (t_attr T) ScModule (m_attrs M)
   /\ (forall e, In e (m_enums M) -> attrs_ok (t_attr T) ScEnum (e_attrs e)
                                    /\ Forall (attrs_ok (t_attr T) ScEnumValue) (e_value_attrs e))
   /\ (forall s, In s (m_structs M) -> attrs_ok (t_attr T) (struct_scope s) (s_attrs s)
-                                     /\ forall f, In f (s_fields s) -> attrs_ok (t_attr T) (field_scope f) (f_attrs f)).
+                                     /\ forall f, In f (s_fields s) -> attrs_ok (t_attr T) (field_scope f) (f_attrs f))
+  /\ (forall x, In x (m_externals M) -> attrs_ok (t_attr T) ScExternal (xd_attrs x)).
 
 Definition units_ok (M : module) : Prop := forall s, In s (m_structs M) -> s_unit s = 1 \/ s_unit s = 8.
 
@@ -532,8 +578,12 @@ Definition real_param (M : module) (p : tref * option Z) : Prop :=
 Definition real_back_ends (M : module) : Prop :=
   forall b, In b (m_used_back_ends M) -> In b (m_expected_back_ends M).
 
+(* an external states its addressable unit: 1 (bit) or 8 (byte) *)
+Definition real_external (x : ext_def) : Prop := xd_unit x = Some 1 \/ xd_unit x = Some 8.
+
 Definition realisable (T : tables) (M : module) : Prop :=
   real_attrs T M
+  /\ (forall x, In x (m_externals M) -> real_external x)
   /\ real_back_ends M
   /\ (forall e, In e (m_enums M) -> real_enum e)
   /\ (forall s, In s (m_structs M) ->
